@@ -48,7 +48,7 @@ SPECIFICATION Spec
 	for _, rc := range []struct {
 		ns, mt, mci int
 		fail, quick bool
-	}{{2, 2, 1, false, true}, {2, 2, 1, true, false}, {1, 3, 2, false, false}} {
+	}{{2, 2, 1, false, true}, {2, 2, 1, true, false}} { // (1 server / MaxTerm 3 was tried: > 10 GB of TLC dump, dropped)
 		rc := rc
 		cfg := raftkvs.Config{NumServers: rc.ns, NumClients: 1, MaxTerm: rc.mt, MaxCommitIndex: rc.mci, BufferSize: 3, ExploreFail: rc.fail, MaxNodeFail: 1, AllStrings: []string{"s1"}}
 		out = append(out, &pair{
@@ -60,7 +60,7 @@ SPECIFICATION Spec
 	for _, pc := range []struct {
 		nr, nc int
 		quick  bool
-	}{{2, 1, true}, {3, 1, false}, {2, 2, false}} {
+	}{{2, 1, true}, {3, 1, false}} { // R3-C1: ~140k states, 1.3 GB dump (thorough); R2-C2 dropped (larger still)
 		pc := pc
 		cfg := pbkvs.Config{NumReplicas: pc.nr, NumClients: pc.nc, ExploreFail: true}
 		out = append(out, &pair{
